@@ -38,6 +38,40 @@ def opt (argv : List String) (f : String) : Option String :=
   | _ :: v :: _ => some v
   | _ => none
 
+/-- `clean sites -c <cut> …` (cmd/cleansites.go) on one alignment: `none` = not modelled, `some none` = refused
+(`--ignore-gaps` with gaps among the characters, `--ignore-n` with `N`/`n` among them), else the cleaning result
+with the kept and the removed positions -/
+def cleanSitesResult (rows : Rows) (cut : String) (fl : List String) : Option (Option CleanResult) := do
+  let L := lenOf rows
+  let (num, den) ← decFrac cut
+  let ends := flag fl "--ends"
+  let ch := (opt fl "--char").getD (← effective "cleanCmd" "char")
+  let ig := flag fl "--ignore-gaps"; let iN := flag fl "--ignore-n"
+  if ch == "GAP" || ch == "-" then
+    if ig then some none else
+    some (some (removeCharacterSites (cutoffTest num den) rows L 1 [GAP] ends false false iN false))
+  else if ch == "MAJ" then
+    some (some (removeMajoritySites (cutoffTestRaw num den) rows L 1 ends ig iN))
+  else
+    let cs := bytesOfString ch
+    if (cs.contains 78 || cs.contains 110) && iN then some none else
+    if cs.contains GAP && ig then some none else
+    some (some (removeCharacterSites (cutoffTest num den) rows L 1 cs ends (flag fl "--ignore-case") ig iN (flag fl "--reverse")))
+
+/-- a name given to an output-file flag that makes the command create exactly that file, uncompressed, in its
+working directory (`utils.OpenWriteFile`: `stdout` / `-` = standard output, `none` = nothing, `.gz` / `.xz` compressed) -/
+def plainFile (n : String) : Bool :=
+  n != "" && n != "stdout" && n != "-" && n != "none" && !n.endsWith ".gz" && !n.endsWith ".xz" &&
+  !n.startsWith "-" && n.all fun c => c.isAlphanum || c == '.' || c == '_'
+
+/-- the `files=` part of a `cli_libf` answer: every file once, plainly named, sorted by name -/
+def filesPart (fs : List (String × String)) : Option String :=
+  if fs.all (fun f => plainFile f.1) && (fs.map Prod.fst).eraseDups.length == fs.length then
+    some (";;".intercalate ((fs.mergeSort fun a b => decide (a.1 ≤ b.1)).map fun f => f.1 ++ "=" ++ f.2))
+  else none
+
+def numLines (l : List Nat) : String := String.join (l.map fun p => toString p ++ "|")
+
 def expected (rows : Rows) (argv : List String) : Option String :=
   let L := lenOf rows
   -- nucleotide alphabet (the generator only sends IUPAC nucleotides and gaps)
@@ -100,17 +134,9 @@ def expected (rows : Rows) (argv : List String) : Option String :=
     let ig := flag fl "--ignore-gaps"; let iN := flag fl "--ignore-n"
     some (ok [("consensus", (List.range L.toNat).map fun j => (maxCharSite 1 ig iN (columnAt rows j)).1)])
   | "clean" :: "sites" :: "-c" :: cut :: fl => do
-    let (num, den) ← decFrac cut
-    let ends := flag fl "--ends"
-    let ch := (opt fl "--char").getD (← effective "cleanCmd" "char")
-    if ch == "MAJ" then
-      let r := removeMajoritySites (cutoffTestRaw num den) rows L 1 ends (flag fl "--ignore-gaps") (flag fl "--ignore-n")
-      some (ok r.rows)
-    else
-      let cs := if ch == "GAP" then [GAP] else bytesOfString ch
-      let r := removeCharacterSites (cutoffTest num den) rows L 1 cs ends (flag fl "--ignore-case")
-        (flag fl "--ignore-gaps") (flag fl "--ignore-n") (flag fl "--reverse")
-      some (ok r.rows)
+    match ← cleanSitesResult rows cut fl with
+    | some r => some (ok r.rows)
+    | none => some bad
   | "mask" :: fl => do
     -- cmd/mask.go: `--unique` first, then `--pos` (each position a window of one site), else `-s` / `-l` (defaults
     -- 0 / 10); with `--ref-seq` every window is given on the ungapped reference and converted first
@@ -315,6 +341,26 @@ def expectedF (rows : Rows) (files : List (String × String)) (argv : List Strin
     if (addAllStop (newAlign 1) o).2 || o.isEmpty then some badF else
     let r := appendRows (pairs (bagOf o)) (bagOf rows)
     some (if r.2 then badF else okF (pairs r.1) "")
+  | "dedup" :: fl => do
+    -- cmd/dedup.go: the alignment without the repeated rows on stdout; `-l`: one line per kept row, its name and
+    -- the names of the rows identical to it, comma separated (also when nothing is identical to it)
+    let lf ← opt fl "-l"
+    if !(fl.all fun a => a == "-l" || a == lf || a == "--n-as-gap") || lf.startsWith "-" then none else
+    let r := deduplicate (flag fl "--n-as-gap") (bagOf rows)
+    some (okF (pairs r.1) (← filesPart [(lf, String.join (r.2.2.map fun g => ",".intercalate g ++ "|"))]))
+  | ["compress", "--weight-out", wf] => do
+    -- cmd/compress.go: the distinct patterns on stdout, one weight per line in the file
+    if rows.isEmpty then none else
+    let (rs, ws, _) := compress rows (lenOf rows)
+    some (okF rs (← filesPart [(wf, numLines ws)]))
+  | "clean" :: "sites" :: "-c" :: cut :: fl => do
+    -- cmd/cleansites.go: `--positions` the remaining, `--positions-rm` the removed sites (0-based, one per line)
+    let outs := (match opt fl "--positions" with | some f => [(f, true)] | none => []) ++
+      (match opt fl "--positions-rm" with | some f => [(f, false)] | none => [])
+    if outs.isEmpty then none else
+    match ← cleanSitesResult rows cut fl with
+    | none => some badF
+    | some r => some (okF r.rows (← filesPart (outs.map fun o => (o.1, numLines (if o.2 then r.kept else r.removed)))))
   | _ => none
 
 /-- `compute entropy [-a] [-g]`: numbers are printed with three decimals -/
